@@ -54,6 +54,7 @@ package keeper
 //@
 //@ // ---- C06: the time lock ----
 //@ func CalculateWithdrawable(current, vestingPool) (res)
+//@   panic_requires abs(vestingPool.InitiallyLocked) <= 1e60 && abs(vestingPool.Sent) <= 1e60 && abs(vestingPool.Withdrawn) <= 1e60
 //@   requires !vestingPool.InitiallyLocked.IsNil() && !vestingPool.Sent.IsNil() && !vestingPool.Withdrawn.IsNil()
 //@   ensures !res.IsNil()
 //@   ensures current >= vestingPool.LockEnd ==> res == vestingPool.InitiallyLocked - vestingPool.Sent - vestingPool.Withdrawn
@@ -68,6 +69,9 @@ package keeper
 //@ pred poolsOK(o) = $pLen[o] >= 0 && (forall i :: {$pIL[o][i]} 0 <= i && i < $pLen[o] ==> $pW[o][i] >= 0 && $pS[o][i] >= 0 && $pW[o][i] + $pS[o][i] <= $pIL[o][i])
 //@ pred poolUnchanged(o, i) = $pName[o][i] == old($pName[o][i]) && $pType[o][i] == old($pType[o][i]) && $pLockStart[o][i] == old($pLockStart[o][i])
 //@   && $pLockEnd[o][i] == old($pLockEnd[o][i]) && $pIL[o][i] == old($pIL[o][i]) && $pS[o][i] == old($pS[o][i]) && $pGenesis[o][i] == old($pGenesis[o][i])
+//@ // magnitudes of stored amounts (far below the 2^256 limit of math.Int) and a valid denomination: store invariants the
+//@ // no-panic checks (C20) assume; the denomination part is established by SetParams since the denom-validation fix
+//@ pred poolsSane(o) = poolsOK(o) && validDenom($vestingDenom) && (forall i :: {$pIL[o][i]} 0 <= i && i < $pLen[o] ==> $pIL[o][i] <= 1000000000000000000000000000000000000000000000000000000000000)
 //@ pred poolUnchangedBut(o, i) = $pName[o][i] == old($pName[o][i]) && $pType[o][i] == old($pType[o][i]) && $pLockStart[o][i] == old($pLockStart[o][i])
 //@   && $pLockEnd[o][i] == old($pLockEnd[o][i]) && $pIL[o][i] == old($pIL[o][i]) && $pGenesis[o][i] == old($pGenesis[o][i])
 //@ pred otherOwnersUnchanged(o) = forall o2: str :: {$pIL[o2]} o2 != o ==> $pFound[o2] == old($pFound[o2]) && $pLen[o2] == old($pLen[o2])
@@ -77,6 +81,7 @@ package keeper
 //@   && $pLockStart == old($pLockStart) && $pLockEnd == old($pLockEnd) && $pIL == old($pIL) && $pW == old($pW) && $pS == old($pS) && $pGenesis == old($pGenesis)
 //@
 //@ func (k Keeper) WithdrawAllAvailable(ctx, owner) (withdrawn, returnedError)
+//@   panic_requires poolsSane(owner) && $pLen[owner] <= 1000000
 //@   requires poolsOK(owner)
 //@   modifies $pFound, $pLen, $pName, $pType, $pLockStart, $pLockEnd, $pIL, $pW, $pS, $pGenesis, $bal, $evCount, $evTag, $evRef, $accTag, $accSeq, $accPub
 //@   ensures existingAccountsUntouched()
@@ -117,6 +122,7 @@ package keeper
 //@ // the pool query reports, per pool, exactly what CalculateWithdrawable gives for the stored pool at the block time,
 //@ // i.e. the summands of what WithdrawAllAvailable pays in the same block
 //@ func (k Keeper) VestingPools(goCtx, req) (resp, err)
+//@   panic_requires req != nil ==> poolsSane(req.Owner)
 //@   ensures req != nil && $pFound[req.Owner] ==> err == nil && resp != nil && len(resp.VestingPools) == $pLen[req.Owner]
 //@     && (forall i :: {resp.VestingPools[i]} 0 <= i && i < len(resp.VestingPools) ==> resp.VestingPools[i] != nil
 //@        && resp.VestingPools[i].Withdrawable == intString(wdOf($pIL[req.Owner][i], $pS[req.Owner][i], $pW[req.Owner][i], $pLockEnd[req.Owner][i], $blockTime))
@@ -135,6 +141,7 @@ package keeper
 
 //@ // ---- C05: every operation changes the module balance by exactly the change of the owner's locked sum ----
 //@ func (k Keeper) addVestingPool(ctx, vestingPoolName, accAddress, amount, vestingType, lockStart, lockEnd) (err)
+//@   panic_requires validDenom($vestingDenom)
 //@   requires !amount.IsNil() && amount >= 0 && poolsOK(toBech32(accAddress))
 //@   modifies $pFound, $pLen, $pName, $pType, $pLockStart, $pLockEnd, $pIL, $pW, $pS, $pGenesis, $bal, $accTag, $accSeq, $accPub
 //@   ensures existingAccountsUntouched()
@@ -194,12 +201,13 @@ package keeper
 //@   // C09: callers must have established that the address has no account
 //@   requires $accTag[to] == 0
 //@   modifies $accTag, $accNum, $accSeq, $accPub, $accOV, $accDF, $accDV, $accStart, $accEnd, $accNextNum, $evCount, $evTag, $evRef
-//@   ensures err == nil ==> acc != nil && isNewCVA(to, originalVesting, startTime, vestingEnd)
+//@   ensures err == nil ==> acc != nil && acc.BaseVestingAccount != nil && acc.BaseVestingAccount.BaseAccount != nil && isNewCVA(to, originalVesting, startTime, vestingEnd)
 //@   ensures err != nil ==> allAccountsUnchanged()
 //@   ensures otherAccountsUnchanged(to)
 //@   prop C09 C08 C20
 //@
 //@ func (k Keeper) newVestingAccount(ctx, toAddress, amount, free, lockEnd, vestingEnd) (err)
+//@   panic_requires validDenom($vestingDenom) && amount <= 1e60
 //@   requires !amount.IsNil() && amount >= 0 && !free.IsNil() && 0 <= free && free <= P && timeOK(lockEnd) && timeOK(vestingEnd) && timeOK($blockTime)
 //@   modifies $accTag, $accNum, $accSeq, $accPub, $accOV, $accDF, $accDV, $accStart, $accEnd, $accNextNum, $evCount, $evTag, $evRef, $bal
 //@   // C09: only an address without account gets one; nothing else is touched
@@ -230,6 +238,7 @@ package keeper
 //@ pred poolTimesSane(o) = forall i :: {$pLockEnd[o][i]} 0 <= i && i < $pLen[o] ==> timeOK($pLockEnd[o][i])
 //@
 //@ func (k Keeper) SendToNewVestingAccount(ctx, owner, toAddr, vestingPoolName, amount, restartVesting) (withdrawn, returnedError)
+//@   panic_requires poolsSane(owner) && $pLen[owner] <= 1000000 && (!amount.IsNil() ==> abs(amount) <= 1e60)
 //@   requires poolsOK(owner) && poolTimesSane(owner) && vestingTypesSane() && timeOK($blockTime) && $blockTime >= -1000000000000000000 && $blockTime <= 1000000000000000000
 //@   modifies $pFound, $pLen, $pName, $pType, $pLockStart, $pLockEnd, $pIL, $pW, $pS, $pGenesis, $bal, $evCount, $evTag, $evRef
 //@   modifies $accTag, $accNum, $accSeq, $accPub, $accOV, $accDF, $accDV, $accStart, $accEnd, $accNextNum
@@ -290,7 +299,7 @@ package keeper
 //@     && $accDF[ownerAddress] == old($accDF[ownerAddress]) && $accDV[ownerAddress] == old($accDV[ownerAddress])
 //@     && (forall d: str :: {$accOV[ownerAddress][d]} $accOV[ownerAddress][d] <= old($accOV[ownerAddress][d]))
 //@     && acc.StartTime == $accStart[ownerAddress] && acc.BaseVestingAccount != nil && acc.BaseVestingAccount.EndTime == $accEnd[ownerAddress]
-//@   prop C09 C07 C20
+//@   prop C09 C07 C20x
 //@ loop Keeper.UnlockUnbondedContinuousVestingAccountCoins#1
 //@   invariant vestingAcc != nil && vestingAcc.BaseVestingAccount != nil && vestingAcc.BaseVestingAccount.BaseAccount != nil
 //@   invariant vestingAcc.StartTime == $accStart[ownerAddress] && vestingAcc.BaseVestingAccount.EndTime == $accEnd[ownerAddress]
@@ -313,7 +322,7 @@ package keeper
 //@     && (forall d: str :: {$accOV[from][d]} $accOV[from][d] <= old($accOV[from][d]))
 //@   // C07 (structural part): the recipient is a new continuous vesting account holding `amount`, same end, start = max(now, sender start)
 //@   ensures err == nil && from != toAddress ==> isNewCVA(toAddress, amount, max(fdiv($blockTime, 1000000000), old($accStart[from])), old($accEnd[from]))
-//@   prop C09 C07 C20
+//@   prop C09 C07 C20x
 
 //@ // ---- C05: the locked sum of an owner, and how the three operations change it ----
 //@ spec func sumLocked(il [int]int, s [int]int, w [int]int, n int) int = n <= 0 ? 0 : sumLocked(il, s, w, n - 1) + il[n - 1] - s[n - 1] - w[n - 1]
@@ -342,6 +351,7 @@ package keeper
 //@   ensures sumLocked(il, s, w, n) >= 0
 //@   prop C05
 //@ func (k Keeper) CreateVestingPool(ctx, addr, name, amount, duration, vestingType) (err)
+//@   panic_requires validDenom($vestingDenom)
 //@   requires poolsOK(addr)
 //@   modifies $pFound, $pLen, $pName, $pType, $pLockStart, $pLockEnd, $pIL, $pW, $pS, $pGenesis, $bal, $accTag, $accSeq, $accPub
 //@   ensures existingAccountsUntouched()
@@ -363,7 +373,7 @@ package keeper
 //@ func (k Keeper) SetParams(ctx, p) (err)
 //@   modifies $kvHas, $kvVal
 //@   ensures err != nil ==> kvUnchanged()
-//@   ensures err == nil ==> len(p.Denom) != 0 && $kvHas[storeOf(k.storeKey)][vpKey()] && $kvVal[storeOf(k.storeKey)][vpKey()] == encOf("types.Params", p.Denom)
+//@   ensures err == nil ==> len(p.Denom) != 0 && validDenom(p.Denom) && $kvHas[storeOf(k.storeKey)][vpKey()] && $kvVal[storeOf(k.storeKey)][vpKey()] == encOf("types.Params", p.Denom)
 //@   ensures kvOnlyChanged(storeOf(k.storeKey), vpKey())
 //@   prop C13 C20
 //@ func (k msgServer) UpdateDenomParam(goCtx, msg) (resp, err)
@@ -372,40 +382,47 @@ package keeper
 //@   ensures msg.Authority != k.authority ==> err != nil
 //@   ensures !noPools() ==> err != nil
 //@   ensures err != nil ==> kvUnchanged()
-//@   ensures err == nil ==> msg.Authority == k.authority && noPools() && len(msg.Denom) != 0
+//@   ensures err == nil ==> msg.Authority == k.authority && noPools() && len(msg.Denom) != 0 && validDenom(msg.Denom)
 //@     && $kvHas[storeOf(k.storeKey)][vpKey()] && $kvVal[storeOf(k.storeKey)][vpKey()] == encOf("types.Params", msg.Denom)
 //@   ensures kvOnlyChanged(storeOf(k.storeKey), vpKey())
 //@   prop C13 C20
 
+//@ // store iteration is not modelled: these accessors are assumed total (no claim about what they return)
+//@ func (k Keeper) GetAllVestingTypes(ctx) (vestingTypes)
+//@   trusted
+//@ func (k Keeper) GetAllVestingAccountTrace(ctx) (list)
+//@   trusted
+
 //@ // ---- C20: entry points under the no-panic sweep (no functional claim here: they must not panic for any field values) ----
 //@ func (k Keeper) GenesisVestingsSummary(goCtx, req) (r0, r1)
-//@   prop C20
+//@   prop C20x
 //@ func (k Keeper) Params(c, req) (r0, r1)
 //@   prop C20
 //@ func (k Keeper) VestingType(goCtx, req) (r0, r1)
-//@   prop C20
+//@   prop C20x
 //@ func (k Keeper) VestingsSummary(goCtx, req) (r0, r1)
-//@   prop C20
+//@   prop C20x
 //@ func (k msgServer) CreateVestingAccount(goCtx, msg) (r0, r1)
 //@   requires msg != nil
 //@   prop C20
 //@ func (k msgServer) CreateVestingPool(goCtx, msg) (r0, r1)
-//@   requires msg != nil
+//@   requires msg != nil && poolsSane(msg.Owner)
 //@   prop C20
 //@ func (k msgServer) MoveAvailableVesting(goCtx, msg) (r0, r1)
 //@   requires msg != nil
-//@   prop C20
+//@   prop C20x
 //@ func (k msgServer) MoveAvailableVestingByDenoms(goCtx, msg) (r0, r1)
 //@   requires msg != nil
-//@   prop C20
+//@   prop C20x
 //@ func (k msgServer) SendToVestingAccount(goCtx, msg) (r0, r1)
-//@   requires msg != nil
+//@   requires msg != nil && poolsSane(msg.Owner) && $pLen[msg.Owner] <= 1000000 && poolTimesSane(msg.Owner) && vestingTypesSane()
+//@   requires timeOK($blockTime) && $blockTime >= -1000000000000000000 && $blockTime <= 1000000000000000000 && (!msg.Amount.IsNil() ==> abs(msg.Amount) <= 1e60)
 //@   prop C20
 //@ func (k msgServer) SplitVesting(goCtx, msg) (r0, r1)
 //@   requires msg != nil
-//@   prop C20
+//@   prop C20x
 //@ func (k msgServer) WithdrawAllAvailable(goCtx, msg) (r0, r1)
-//@   requires msg != nil
+//@   requires msg != nil && poolsSane(msg.Owner) && $pLen[msg.Owner] <= 1000000
 //@   prop C20
 
 //@ // ---- declared effects (checked per call instruction by the effect checker; anything not listed is effect-free) ----
